@@ -94,6 +94,14 @@ def run(chk, ctx) -> None:
             and all(isinstance(s, ast.Pass) for h in t.handlers for s in h.body) for t in trys)
         chk.ob('C05.errors', f'{fi.qualname}:skip_invalid', ok, fi.loc,
                'a combination that is not a hand of the type is skipped (ValueError caught, nothing else done)')
+    # ---- the search is exhaustive: nothing leaves a combination loop early
+    for cname, fi in impls.items():
+        for loop in _combination_loops(fi):
+            early = [n for st in loop.body for n in ast.walk(st) if isinstance(n, (ast.Break, ast.Return))]
+            chk.ob('C05.exhaustive', fi.qualname, not early, ctx.loc(fi, early[0]) if early else ctx.loc(fi, loop),
+                   'every legal combination is examined: no break / return inside the loop over the combinations '
+                   '(a later combination of the same category can still be stronger)')
+    chk.floor('C05.exhaustive', 4)
     if len(set(map(T.key, polarity.values()))) > 1:
         chk.ob('C05.polarity', 'siblings', False, prog.cls('Hand').loc,
                'all best-of searches must maximise with the same comparison',
